@@ -1,6 +1,6 @@
 """ENG — internal pseudo-check used by tools/mutscan.py: ONE engine run evaluated with the monitors of all engine-level properties
 (C01–C06, C13, C17) + the M-ENGINE correspondence + the regenerated-kernel proofs. Not listed in MANIFEST.json."""
-from props import engine_common, ms_common, engine2_common
+from props import engine_common, ms_common, engine2_common, c11
 
 THEOREMS = []
 FINISH = {"level": "proof", "assumptions": ["internal"]}
@@ -11,5 +11,9 @@ def run(ctx):
     ctx.extract()
     engine_common.run_engine(ctx, PREFIXES, n_quick=3000, n_thorough=60000)
     engine2_common.run_engine2(ctx, PREFIXES + ["C10:", "C15:", "C07:"])
+    exe = ctx.build_harness("server", only=c11.ACK_FILES)   # require-ack branches of Lock / wakeUpWaitLock / DoAckLock
+    if exe:
+        c11.run_fixed(ctx, exe)
+        c11.run_ack(ctx, exe, 1500, ctx.seed, {"VERIF_ACK_SCRIPT": c11.CORPUS})
     if ctx.tier == "thorough" or __import__("os").environ.get("ENG_MS"):
         ms_common.run_ms(ctx, "both")
